@@ -222,7 +222,7 @@ Proof.
   rewrite ctext_list. intros H. cbn [has_nl] in H. apply orb_false_iff in H. destruct H as [_ H]. rewrite !has_nl_app in H.
   apply orb_false_iff in H. destruct H as [H1 H]. apply orb_false_iff in H. destruct H as [H2 _]. now split.
 Qed.
-Lemma set_text_ml r b cg' : has_nl (ctext (CSet r [" "] b (LF :: cg'))) = true.
+Lemma set_text_ml r b cg' : has_nl (ctext (CSet r (grc r) b (LF :: cg'))) = true.
 Proof. rewrite ctext_set, has_nl_app. cbn [has_nl]. rewrite !has_nl_app. cbn [has_nl]. change (LF =c LF) with true. cbn [orb]. rewrite !orb_true_r. reflexivity. Qed.
 Lemma list_text_ml b cg' : has_nl (ctext (CList b (LF :: cg'))) = true.
 Proof. rewrite ctext_list. cbn [has_nl]. rewrite !has_nl_app. cbn [has_nl]. change (LF =c LF) with true. cbn [orb]. rewrite !orb_true_r. reflexivity. Qed.
@@ -293,7 +293,7 @@ Proof.
       * eapply Forall_impl; [|exact HG]. intros [g n] Hn Hc. cbn [snd] in *. destruct (Hn Hc (ind + 2)) as [H1 _].
         split; [exact H1|]. split; [rewrite is_cmt_canon; exact Hc|apply is_bind_canon].
     + destruct (Hinl eq_refl) as [_ Hin]. destruct (set_text_nonl _ _ _ _ Hnl) as [Hfl _]. apply flat_nonl in Hfl.
-      assert (Hnn : has_nl (ctext (CSet r [" "] (canon_inline (fun n => canon n (ind + 2)) body) [" "])) = false).
+      assert (Hnn : has_nl (ctext (CSet r (grc r) (canon_inline (fun n => canon n (ind + 2)) body) [" "])) = false).
       { rewrite ctext_set, has_nl_app. cbn [has_nl]. rewrite !has_nl_app.
         rewrite flat_inline_nonl.
         - destruct r; reflexivity.
